@@ -26,7 +26,7 @@ CONF = {
              'succeeded or the packet has a non-failure layer), or returned an error that is not of the "too short" family; '
              'the generator tags (truncated-prefix-of-valid, option-length-extreme) are only given to such cases.'),
     'assumptions': ['testing only: a clean sweep says nothing about inputs that were not generated',
-                    'a hang is a case (about 100 calls) exceeding 4 s on a loaded 16-core machine',
+                    'a hang is a case (about 100 calls on one input) whose worker thread burns more than 3 s of CPU, or that makes no progress for 90 s of wall-clock time',
                     'site = function name of the first gopacket frame under the panic; two defects in one function share a site (kind= index/slice/nil/... separates some)'],
     'trusted_base': ['no Coq model: the oracle is the executable statement of the four properties in harness/cmd/gpverif/sweep*.go',
                      'go/ast enumeration harness/sweepast; Go reflect for the exported-field comparison of C06'],
